@@ -1166,6 +1166,11 @@ class Interp(object):
     def nat___import__(self, args, kwargs):
         self.effect('import', args[0])
         if isinstance(args[0], str):
+            if isinstance(getattr(self, 'sys_modules', None), dict):
+                # a concrete table of loaded modules: importing registers the module and its parent packages
+                parts = str(args[0]).split('.')
+                for i in range(1, len(parts) + 1):
+                    self.sys_modules.setdefault('.'.join(parts[:i]), ModStub('.'.join(parts[:i])))
             return ModStub(str(args[0]).partition('.')[0])      # __import__('a.b.c') returns the top-level package a
         return Unknown('module')
 
